@@ -24,10 +24,10 @@ fn start_counter() -> impl Strategy<Value = Option<u32>> {
 fn strategy() -> impl Strategy<Value = History> {
     let sites = vec![0usize, 1, 2];
     let auth = (any::<u16>(), proptest::bool::weighted(0.8), cm::bytes(32), any::<u8>(), any::<u16>()).prop_map(|(k, targeted, challenge, uv, s)| {
-        Op::Auth(AuthOp { site: [0usize, 1, 2, 8][s as usize % 4], challenge, allow: if targeted { AllowSel::Ids(vec![IdRef::Known(k, true)]) } else { AllowSel::Absent }, cd: CdMode::Default, uv })
+        Op::Auth(AuthOp { site: [0usize, 1, 2, 8][s as usize % 4], prf: (uv % 3 == 0).then(|| challenge.clone()), challenge, allow: if targeted { AllowSel::Ids(vec![IdRef::Known(k, true)]) } else { AllowSel::Absent }, cd: CdMode::Default, uv })
     });
     let fault = (any::<u16>(), cm::bytes(16), prop_oneof![Just(0x2Eu8), Just(0x28), Just(0x7F), Just(0x01), Just(0x00)]).prop_map(|(k, challenge, code)| {
-        Op::AuthUpdateFault(AuthOp { site: 0, challenge, allow: AllowSel::Ids(vec![IdRef::Known(k, true)]), cd: CdMode::Default, uv: 0 }, code)
+        Op::AuthUpdateFault(AuthOp { site: 0, challenge, allow: AllowSel::Ids(vec![IdRef::Known(k, true)]), cd: CdMode::Default, uv: 0, prf: None }, code)
     });
     let reg = cm::reg_op(sites).prop_map(|mut r| {
         r.algs = vec![-7];
@@ -35,11 +35,28 @@ fn strategy() -> impl Strategy<Value = History> {
     });
     (
         prop_oneof![3 => Just(StoreKind::Ref), 2 => Just(StoreKind::Memory), 1 => Just(StoreKind::OptionSlot)],
-        cm::auth_cfg(),
+        (cm::auth_cfg(), prop_oneof![2 => Just(crate::cer::HmacCfg::None), 1 => Just(crate::cer::HmacCfg::WithoutUv), 1 => Just(crate::cer::HmacCfg::UvOnly)]).prop_map(|(mut c, h)| {
+            c.hmac = h;
+            c
+        }),
         proptest::collection::vec((0usize..3, start_counter(), any::<bool>()), 1..5),
         proptest::collection::vec(prop_oneof![16 => auth, 2 => reg, 1 => fault], 2..41),
     )
-        .prop_map(|(store, cfg, preload, ops)| History { store, disc: Disc::ForcedDiscoverable, cfg, preload, ops })
+        .prop_map(|(store, cfg, mut preload, mut ops)| {
+            if store != StoreKind::Ref {
+                // the shipped stores look credentials up by id only (known finding D5 under C05): one RP
+                for p in preload.iter_mut() {
+                    p.0 = 0;
+                }
+                for o in ops.iter_mut() {
+                    match o {
+                        Op::Auth(a) | Op::AuthUpdateFault(a, _) => a.site = 0,
+                        Op::Reg(r) => r.site = 0,
+                    }
+                }
+            }
+            History { store, disc: Disc::ForcedDiscoverable, cfg, preload, ops }
+        })
 }
 
 fn check(ctx: &mut Ctx, h: &History) -> Result<(), String> {
@@ -50,6 +67,7 @@ fn check(ctx: &mut Ctx, h: &History) -> Result<(), String> {
     ctx.class_n("assertions/not-found", stats.auth_not_found);
     ctx.class_n("assertions/other-error(measured)", stats.auth_unexpected_err);
     ctx.class_n("assertions/failed-while-store-rejects-update", stats.auth_faulted_err);
+    ctx.class_n("assertions/prf-request-refused(measured)", stats.auth_prf_refused);
     ctx.class(&format!("store/{:?}", h.store));
     let near_max = h.preload.iter().any(|(_, c, _)| c.is_some_and(|c| c >= u32::MAX - 2));
     if near_max {
